@@ -1,726 +1,405 @@
+(* C13 — invariants of all reachable states and the property theorems (model follows /repo after
+   the fix: commits d5b8825, eed7d46, b6c5394, fabe449). *)
 From Coq Require Import List ZArith Bool Lia Arith.
 From LTV.C13 Require Import ParamsGen.
-From LTV.C13 Require Import Model.
+From LTV.C13 Require Import Model ProofsList ProofsSite ProofsStep.
 Import ListNotations.
 Open Scope Z_scope.
 
-(* ------------------------------------------------------------------ constants *)
-
-(* side conditions on the constants re-extracted from /repo that the theorems rely on *)
-Definition params_ok : bool :=
-  (0 <? min_min) && (min_min <=? max_min) && (0 <? min_normal) && (min_normal <=? max_normal) &&
-  (0 <? backoff_base) && (0 <=? backoff_cap) && (min_min <=? promisc_floor) &&
-  (0 <? start_promisc_timeout) && (0 <? requesting_success_timeout).
-
+Definition params_ok := ProofsSite.params_ok.
 Lemma params_ok_now : params_ok = true.
-Proof. vm_compute. reflexivity. Qed.
+Proof. exact ProofsSite.params_ok_now. Qed.
 
-Lemma params_facts :
-  0 < min_min /\ min_min <= max_min /\ 0 < min_normal /\ min_normal <= max_normal /\ min_min <= promisc_floor.
-Proof.
-  pose proof params_ok_now as H. unfold params_ok in H.
-  repeat (apply andb_prop in H; destruct H as [H ?]).
-  repeat match goal with
-         | h : (_ <? _) = true |- _ => apply Z.ltb_lt in h
-         | h : (_ <=? _) = true |- _ => apply Z.leb_le in h
-         end.
-  repeat split; assumption.
-Qed.
-
-Global Opaque min_min max_min min_normal max_normal backoff_base backoff_cap promisc_floor
-       start_promisc_timeout requesting_success_timeout.
-
-(* the back-off table as the property states it: min(base * 2^(k-1), min_min), shift capped *)
-Lemma backoff_le k : backoff k <= min_min.
-Proof. unfold backoff. lia. Qed.
-
-(* ------------------------------------------------------------------ what a log entry must satisfy *)
-
-Definition base_ok (r : req) : Prop :=
-  r_repl r = t_busy (r_pre r) /\ r_id r = t_id (r_pre r) /\ t_en (r_pre r) = true /\
-  (t_busy (r_pre r) = true -> r_ev r <> EvNone /\ r_ev r <> t_ev (r_pre r)).
-
-(* no-hammer condition at a timer-driven send, [nows] = cached_seconds *)
-Definition retry_wait (t : tracker) : Z := if min_min <? t_mi t then t_mi t else backoff (t_fc t).
-
-Definition timer_ok (nows : Z) (t : tracker) : Prop :=
-  (t_fc t <> 0 -> t_ftl t + retry_wait t <= nows) /\
-  (t_fc t = 0 -> t_sc t <> 0 -> t_stl t + Z.min (t_ni t) (Z.max (t_mi t) promisc_floor) <= nows).
-
-Definition mask_excl (f : flags) : Prop :=
-  match f_update f, f_completed f, f_start f, f_stop f with
-  | false, false, false, false | true, false, false, false | false, true, false, false
-  | false, false, true, false | false, false, false, true => True
-  | _, _, _, _ => False
-  end.
-
-Definition site (r : req) : Prop :=
-  base_ok r /\
-  match r_src r with
-  | SrcStart => r_ev r = EvStarted /\ f_start (r_fl r) = true /\ f_completed (r_fl r) = false
-  | SrcStop => r_ev r = EvStopped /\ is_in_use (r_pre r) = true /\ f_start (r_fl r) = false /\ f_completed (r_fl r) = false
-  | SrcCompleted => r_ev r = EvCompleted /\ is_in_use (r_pre r) = true /\ f_start (r_fl r) = false /\ f_completed (r_fl r) = true
-  | SrcUpdate => r_ev r = EvNone
-  | SrcTimer => r_ev r = current_send_event (r_fl r) /\ mask_excl (r_fl r) /\ f_active (r_fl r) = true /\
-                timer_ok (r_time r / usec) (r_pre r)
-  end.
-
-Definition figures_ok (up comp lft : Z) (r : req) : Prop :=
-  r_up r = Z.max up 0 /\ r_comp r = Z.max comp 0 /\ r_left r = lft.
-
-(* ------------------------------------------------------------------ emits / frame *)
-
-Definition emits (Q : req -> Prop) (s s' : state) : Prop :=
-  exists new, log s' = new ++ log s /\ Forall Q new.
-
-Definition frame (s s' : state) : Prop :=
-  fl s' = fl s /\ now s' = now s /\ s_up s' = s_up s /\ s_comp s' = s_comp s /\ s_left s' = s_left s.
-
-Definition E (Q : req -> Prop) (s s' : state) : Prop := emits Q s s' /\ frame s s'.
-
-Lemma emits_same Q s s' : log s' = log s -> emits Q s s'.
-Proof. intros H. exists []. split; [rewrite H; reflexivity | constructor]. Qed.
-
-Lemma emits_trans Q s1 s2 s3 : emits Q s1 s2 -> emits Q s2 s3 -> emits Q s1 s3.
-Proof.
-  intros [n1 [H1 F1]] [n2 [H2 F2]]. exists (n2 ++ n1). split.
-  - rewrite H2, H1, app_assoc. reflexivity.
-  - apply Forall_app. split; assumption.
-Qed.
-
-Lemma emits_weaken (Q Q' : req -> Prop) s s' : (forall r, Q r -> Q' r) -> emits Q s s' -> emits Q' s s'.
-Proof. intros W [n [H F]]. exists n. split; [assumption|]. eapply Forall_impl; eauto. Qed.
-
-Lemma frame_refl s : frame s s.
-Proof. unfold frame. auto. Qed.
-
-Lemma frame_trans s1 s2 s3 : frame s1 s2 -> frame s2 s3 -> frame s1 s3.
-Proof. unfold frame. intros (a&b&c&d&e) (a'&b'&c'&d'&e'). repeat split; congruence. Qed.
-
-Lemma E_same Q s s' : log s' = log s -> frame s s' -> E Q s s'.
-Proof. intros. split; [apply emits_same|]; assumption. Qed.
-
-Lemma E_trans Q s1 s2 s3 : E Q s1 s2 -> E Q s2 s3 -> E Q s1 s3.
-Proof. intros [a b] [c d]. split; [eapply emits_trans | eapply frame_trans]; eauto. Qed.
-
-Lemma E_weaken (Q Q' : req -> Prop) s s' : (forall r, Q r -> Q' r) -> E Q s s' -> E Q' s s'.
-Proof. intros W [a b]. split; [eapply emits_weaken; eauto | assumption]. Qed.
-
-Lemma E_update_timeout Q n s : E Q s (update_timeout n s).
-Proof. unfold update_timeout. destruct (n =? 0); apply E_same; unfold frame; simpl; auto. Qed.
-
-Lemma E_erase Q s : E Q s (erase_timeout s).
-Proof. apply E_same; unfold frame; simpl; auto. Qed.
-
-(* ------------------------------------------------------------------ send_event *)
-
-Lemma event_eqb_false a b : event_eqb a b = false -> a <> b.
-Proof. destruct a, b; simpl; congruence. Qed.
-
-(* the predicate established by one send from a context (flags F, time T, figures) *)
-Definition sent (F : flags) (T up comp lft : Z) (sr : src) (ev : event) (C : tracker -> Prop) (r : req) : Prop :=
-  base_ok r /\ r_fl r = F /\ r_time r = T /\ r_src r = sr /\ r_ev r = ev /\ C (r_pre r) /\ figures_ok up comp lft r.
-
-Lemma send_event_E sr t ev s (C : tracker -> Prop) :
-  C t -> E (sent (fl s) (now s) (s_up s) (s_comp s) (s_left s) sr ev C) s (send_event sr t ev s).
-Proof.
-  intros HC. unfold send_event.
-  destruct (is_usable t) eqn:Hu; simpl; [| apply E_same; [reflexivity | apply frame_refl]].
-  destruct (t_busy t && (event_eqb (t_ev t) ev || event_eqb ev EvNone)) eqn:Hg;
-    [apply E_same; [reflexivity | apply frame_refl] |].
-  split; [| unfold frame; simpl; auto].
-  assert (Hbusy : t_busy t = true -> ev <> EvNone /\ ev <> t_ev t).
-  { intros Hb. rewrite Hb in Hg. simpl in Hg. apply orb_false_elim in Hg. destruct Hg as [H1 H2].
-    apply event_eqb_false in H1. apply event_eqb_false in H2. split; congruence. }
-  eexists [_]. split; [reflexivity|]. constructor; [| constructor].
-  unfold sent, base_ok, figures_ok; simpl. tauto.
-Qed.
-
-Lemma fold_send_E sr ev (C : tracker -> Prop) l : forall s F T up comp lft,
-  fl s = F -> now s = T -> s_up s = up -> s_comp s = comp -> s_left s = lft ->
-  (forall t, In t l -> C t) ->
-  E (sent F T up comp lft sr ev C) s (fold_left (fun s t => send_event sr t ev s) l s).
-Proof.
-  induction l as [| t l IH]; intros s F T up comp lft HF HT Hu Hc Hl HC; simpl.
-  - apply E_same; [reflexivity | apply frame_refl].
-  - pose proof (send_event_E sr t ev s C (HC t (or_introl eq_refl))) as H1.
-    rewrite HF, HT, Hu, Hc, Hl in H1.
-    eapply E_trans; [exact H1|].
-    destruct H1 as [_ (a&b&c&d&e)].
-    apply IH; try congruence. intros. apply HC. right. assumption.
-Qed.
-
-(* ------------------------------------------------------------------ timing facts at the two timer sites *)
-
-Definition nows_of (T : Z) := T / usec.
-
-Lemma atn_timer_ok nows t : activity_time_next t <= nows -> timer_ok nows t.
-Proof.
-  pose proof params_facts as (p1&p2&p3&p4&p5).
-  unfold timer_ok, activity_time_next, failed_time_next, success_time_next, retry_wait. intros H. split.
-  - intros Hf. apply Z.eqb_neq in Hf. rewrite Hf in H. simpl in H.
-    destruct (min_min <? t_mi t); lia.
-  - intros Hf Hs. rewrite Hf in H. simpl in H. apply Z.eqb_neq in Hs. rewrite Hs in H. lia.
-Qed.
-
-Lemma ntp_timer_ok nows t : next_timeout_promiscuous nows t = 0 -> timer_ok nows t.
-Proof.
-  pose proof params_facts as (p1&p2&p3&p4&p5).
-  unfold next_timeout_promiscuous. destruct (t_busy t || negb (is_usable t)).
-  - unfold uint32_max. discriminate.
-  - unfold timer_ok, failed_time_next, activity_time_last, retry_wait. intros H. split.
-    + intros Hf. apply Z.eqb_neq in Hf. rewrite Hf in H. simpl in H.
-      pose proof (backoff_le (t_fc t)).
-      destruct (min_min <? t_mi t) eqn:Hm; [apply Z.ltb_lt in Hm | apply Z.ltb_ge in Hm]; lia.
-    + intros Hf Hs. rewrite Hf in H. simpl in H. lia.
-Qed.
-
-Lemma find_preferred_zero nows seg : forall pref ptl next p n',
-  find_preferred nows seg pref ptl next = (Some p, n') ->
-  pref = Some p \/ next_timeout_promiscuous nows p = 0.
-Proof.
-  induction seg as [| t r IH]; intros pref ptl next p n' H; simpl in H.
-  - inversion H. left. reflexivity.
-  - destruct (negb (next_timeout_promiscuous nows t =? 0)) eqn:Hz.
-    + eapply IH; eauto.
-    + apply negb_false_iff in Hz. apply Z.eqb_eq in Hz.
-      destruct (activity_time_last t <? ptl).
-      * apply IH in H. destruct H as [H | H]; [inversion H; subst; right; assumption | right; assumption].
-      * eapply IH; eauto.
-Qed.
-
-(* ------------------------------------------------------------------ do_timeout *)
-
-Definition timer_sent (s : state) :=
-  sent (fl s) (now s) (s_up s) (s_comp s) (s_left s) SrcTimer (current_send_event (fl s)) (timer_ok (now s / usec)).
-
-Lemma timeout_groups_E fuel ev : forall rest next s F T up comp lft,
-  fl s = F -> now s = T -> s_up s = up -> s_comp s = comp -> s_left s = lft ->
-  E (sent F T up comp lft SrcTimer ev (timer_ok (T / usec))) s (fst (timeout_groups fuel ev rest next s)).
-Proof.
-  induction fuel as [| fuel IH]; intros rest next s F T up comp lft HF HT Hu Hc Hl; simpl.
-  - apply E_same; [reflexivity | apply frame_refl].
-  - destruct rest as [| itr rest']; simpl; [apply E_same; [reflexivity | apply frame_refl] |].
-    set (after := if Nat.ltb (t_group itr) (S (t_group itr)) then drop_while (fun t => Nat.ltb (t_group t) (S (t_group itr))) rest' else itr :: rest').
-    destruct (has_active_in_group (t_group itr) (trs s)); [apply IH; assumption |].
-    assert (Hn : now_s s = T / usec) by (unfold now_s; rewrite HT; reflexivity).
-    destruct (negb (is_usable itr) || negb (t_fc itr =? 0)).
-    + destruct (find_preferred (now_s s) _ None uint32_max next) as [pref next'] eqn:Hfp.
-      destruct pref as [p |]; [| apply IH; assumption].
-      apply find_preferred_zero in Hfp. destruct Hfp as [Hfp | Hfp]; [discriminate |].
-      rewrite Hn in Hfp. apply ntp_timer_ok in Hfp.
-      pose proof (send_event_E SrcTimer p ev s (timer_ok (T / usec)) Hfp) as H1.
-      rewrite HF, HT, Hu, Hc, Hl in H1.
-      eapply E_trans; [exact H1 |]. destruct H1 as [_ (a&b&c&d&e)].
-      apply IH; congruence.
-    + destruct (negb (next_timeout_promiscuous (now_s s) itr =? 0)) eqn:Hz; [apply IH; assumption |].
-      apply negb_false_iff in Hz. apply Z.eqb_eq in Hz. rewrite Hn in Hz. apply ntp_timer_ok in Hz.
-      pose proof (send_event_E SrcTimer itr ev s (timer_ok (T / usec)) Hz) as H1.
-      rewrite HF, HT, Hu, Hc, Hl in H1.
-      eapply E_trans; [exact H1 |]. destruct H1 as [_ (a&b&c&d&e)].
-      apply IH; congruence.
-Qed.
-
-Lemma do_timeout_E s :
-  E (fun r => timer_sent s r /\ f_active (fl s) = true) s (do_timeout s).
-Proof.
-  unfold do_timeout.
-  assert (He : E (fun r => timer_sent s r /\ f_active (fl s) = true) s (erase_timeout s)) by apply E_erase.
-  set (s1 := erase_timeout s) in *.
-  assert (Hfl : fl s1 = fl s) by reflexivity.
-  assert (Hnow : now s1 = now s) by reflexivity.
-  destruct (negb (f_active (fl s1)) || negb (has_usable (trs s1))) eqn:Hact; [exact He |].
-  apply orb_false_elim in Hact. destruct Hact as [Hact _]. apply negb_false_iff in Hact. rewrite Hfl in Hact.
-  eapply E_trans; [exact He |].
-  apply E_weaken with (Q := timer_sent s); [intros; split; assumption |].
-  unfold timer_sent.
-  destruct (f_promisc (fl s1) || f_requesting (fl s1)).
-  - pose proof (timeout_groups_E (length (trs s1)) (current_send_event (fl s1)) (trs s1) uint32_max s1
-                  (fl s) (now s) (s_up s) (s_comp s) (s_left s) Hfl Hnow eq_refl eq_refl eq_refl) as H.
-    destruct (timeout_groups (length (trs s1)) (current_send_event (fl s1)) (trs s1) uint32_max s1) as [s' next].
-    simpl in H. try rewrite Hfl in H.
-    destruct (negb (next =? uint32_max)); [| exact H].
-    eapply E_trans; [exact H | apply E_update_timeout].
-  - destruct (find_next_to_request (trs s1)) as [t |]; [| apply E_same; [reflexivity | apply frame_refl]].
-    destruct (activity_time_next t <=? now_s s1) eqn:Hle.
-    + apply Z.leb_le in Hle. unfold now_s in Hle. rewrite Hnow in Hle. apply atn_timer_ok in Hle.
-      pose proof (send_event_E SrcTimer t (current_send_event (fl s1)) s1 (timer_ok (now s / usec)) Hle) as H.
-      exact H.
-    + apply E_update_timeout.
-Qed.
-
-(* every timer-driven entry satisfies [site] when the flags are exclusive *)
-Lemma timer_sent_site s r : mask_excl (fl s) -> timer_sent s r /\ f_active (fl s) = true -> site r.
-Proof.
-  intros Hm [(b & hfl & ht & hsrc & hev & hc & _) Ha]. unfold site. split; [assumption |].
-  rewrite hsrc, hfl, ht. tauto.
-Qed.
-
-(* ------------------------------------------------------------------ invariant of all reachable states *)
-
-Definition clamps (t : tracker) : Prop :=
-  min_normal <= t_ni t <= max_normal /\ min_min <= t_mi t <= max_min.
-
-Definition tinv (l : list tracker) : Prop := Forall clamps l.
-
-Definition figs_site (s : state) (r : req) : Prop := True.
+(* ------------------------------------------------------------------ invariant *)
 
 Definition Inv (s : state) : Prop :=
-  mask_excl (fl s) /\ Forall site (log s).
+  mask_excl (fl s) /\ nsorted (map t_group (trs s)) /\ tinv (trs s) /\ Forall site (log s).
 
-Lemma inv_of_emits s s' : Forall site (log s) -> emits site s s' -> Forall site (log s').
-Proof. intros H [n [Hl Hn]]. rewrite Hl. apply Forall_app. split; assumption. Qed.
-
-(* flags-only helpers *)
-Ltac dflags f := destruct f as [u c st sp a rq fa pr]; simpl in *.
-Ltac dbools := repeat match goal with b : bool |- _ => destruct b end; simpl in *; try tauto; try congruence; auto.
-
-Lemma set_fl_log s f : log (set_fl s f) = log s. Proof. reflexivity. Qed.
-
-Definition nt_site (r : req) : Prop := site r /\ r_src r <> SrcTimer.
-
-(* send_start_event *)
-Lemma send_start_event_spec s :
-  mask_excl (fl (send_start_event s)) /\ emits nt_site s (send_start_event s).
+Lemma Inv_init t0 groups : Inv (init t0 groups).
 Proof.
-  unfold send_start_event.
-  set (s1 := set_fl s _).
-  assert (Hf1 : (f_start (fl s1) = true /\ f_completed (fl s1) = false) /\ mask_excl (fl s1)) by (subst s1; simpl; unfold mask_excl; simpl; auto).
-  destruct (negb (f_active (fl s1)) || negb (has_usable (trs s1))).
-  - split; [apply Hf1 | apply emits_same; reflexivity].
-  - set (s2 := ctl_close s1).
-    assert (Hf2 : (f_start (fl s2) = true /\ f_completed (fl s2) = false) /\ mask_excl (fl s2)) by (subst s2; unfold ctl_close; simpl; exact Hf1).
-    destruct (filter is_usable (trs s2)) as [| a rest]; [split; [apply Hf2 | apply emits_same; reflexivity] |].
-    pose proof (send_event_E SrcStart a EvStarted s2 (fun _ => True) I) as [Hem (hfl & _)].
-    assert (Hsite : emits nt_site s (send_event SrcStart a EvStarted s2)).
-    { apply emits_trans with (s2 := s2); [apply emits_same; reflexivity |].
-      eapply emits_weaken; [| exact Hem].
-      intros r (b & hf & _ & hs & he & _). split; [| rewrite hs; discriminate]. unfold site. split; [assumption |]. rewrite hs, hf. split; [assumption | apply Hf2]. }
-    destruct rest.
-    + split; [rewrite hfl; apply Hf2 | exact Hsite].
-    + split.
-      * unfold update_timeout. destruct (_ =? 0); simpl; rewrite hfl; destruct Hf2 as [_ Hm];
-          unfold mask_excl in *; simpl; exact Hm.
-      * eapply emits_trans; [exact Hsite |]. apply emits_same. unfold update_timeout. destruct (_ =? 0); reflexivity.
+  pose proof params_facts as (p1&p2&p3&p4&p5).
+  unfold Inv, init. simpl. ssplit.
+  - unfold mask_excl. simpl. exact I.
+  - apply insert_all_sorted. simpl. exact I.
+  - apply insert_all_Forall; [| constructor]. intros i g. unfold clamps, new_tracker. simpl. lia.
+  - constructor.
 Qed.
 
-Lemma send_to_in_use_E sr ev s :
-  E (sent (fl s) (now s) (s_up s) (s_comp s) (s_left s) sr ev (fun t => is_in_use t = true)) s (send_to_in_use sr ev s).
-Proof.
-  unfold send_to_in_use. apply fold_send_E; auto.
-  intros t Hin. apply filter_In in Hin. apply Hin.
-Qed.
-
-Lemma send_stop_event_spec s :
-  mask_excl (fl (send_stop_event s)) /\ emits nt_site s (send_stop_event s).
-Proof.
-  unfold send_stop_event.
-  set (s1 := set_fl s (clear_mask (fl s))).
-  assert (Hm1 : mask_excl (fl s1)) by (subst s1; simpl; unfold mask_excl; simpl; auto).
-  destruct (negb (f_active (fl s1)) || negb (has_usable (trs s1))).
-  - split; [assumption | apply emits_same; reflexivity].
-  - set (s2 := ctl_close (set_fl s1 _)).
-    pose proof (send_to_in_use_E SrcStop EvStopped s2) as [Hem (hfl & _)].
-    split.
-    + rewrite hfl. subst s2 s1. unfold ctl_close, mask_excl. simpl. auto.
-    + apply emits_trans with (s2 := s2); [apply emits_same; reflexivity |].
-      eapply emits_weaken; [| exact Hem].
-      intros r (b & hf & _ & hs & he & hc & _). split; [| rewrite hs; discriminate]. unfold site. split; [assumption |]. rewrite hs, hf.
-      subst s2 s1. unfold ctl_close. simpl. auto.
-Qed.
-
-Lemma send_completed_event_spec s :
-  mask_excl (fl (send_completed_event s)) /\ emits nt_site s (send_completed_event s).
-Proof.
-  unfold send_completed_event.
-  set (s1 := set_fl s _).
-  assert (Hm1 : mask_excl (fl s1)) by (subst s1; simpl; unfold mask_excl; simpl; auto).
-  destruct (negb (f_active (fl s1)) || negb (has_usable (trs s1))).
-  - split; [assumption | apply emits_same; reflexivity].
-  - set (s2 := ctl_close s1).
-    pose proof (send_to_in_use_E SrcCompleted EvCompleted s2) as [Hem (hfl & _)].
-    split.
-    + rewrite hfl. subst s2 s1. unfold ctl_close, mask_excl. simpl. auto.
-    + apply emits_trans with (s2 := s2); [apply emits_same; reflexivity |].
-      eapply emits_weaken; [| exact Hem].
-      intros r (b & hf & _ & hs & he & hc & _). split; [| rewrite hs; discriminate]. unfold site. split; [assumption |]. rewrite hs, hf.
-      subst s2 s1. unfold ctl_close. simpl. auto.
-Qed.
-
-Lemma send_update_event_spec s :
-  mask_excl (fl s) -> mask_excl (fl (send_update_event s)) /\ emits nt_site s (send_update_event s).
-Proof.
-  intros Hm. unfold send_update_event.
-  destruct (negb (f_active (fl s)) || negb (has_usable (trs s))); [split; [assumption | apply emits_same; reflexivity] |].
-  destruct (mask_send (fl s) && has_active (trs s)); [split; [assumption | apply emits_same; reflexivity] |].
-  set (s1 := if negb (mask_send (fl s)) then set_fl s _ else s).
-  assert (Hm1 : mask_excl (fl s1) /\ log s1 = log s).
-  { subst s1. destruct (mask_send (fl s)) eqn:Hms; simpl; [auto |].
-    split; [| reflexivity]. unfold mask_send in Hms. unfold mask_excl in *. dflags (fl s). dbools. }
-  destruct Hm1 as [Hm1 Hl1].
-  destruct (filter is_usable (trs s1)) as [| a rest]; [split; [assumption | apply emits_same; assumption] |].
-  pose proof (send_event_E SrcUpdate a EvNone s1 (fun _ => True) I) as [Hem (hfl & _)].
-  split; [rewrite hfl; assumption |].
-  apply emits_trans with (s2 := s1); [apply emits_same; assumption |].
-  eapply emits_weaken; [| exact Hem].
-  intros r (b & hf & _ & hs & he & _). split; [| rewrite hs; discriminate]. unfold site. split; [assumption |]. rewrite hs. assumption.
-Qed.
-
-Lemma do_timeout_spec s :
-  mask_excl (fl s) -> fl (do_timeout s) = fl s /\ emits (fun r => site r /\ r_fl r = fl s) s (do_timeout s).
-Proof.
-  intros Hm. pose proof (do_timeout_E s) as [Hem (hfl & _)]. split; [assumption |].
-  eapply emits_weaken; [| exact Hem]. intros r H. split; [eapply timer_sent_site; eauto |].
-  destruct H as [(_ & h & _) _]. exact h.
-Qed.
-
-(* what one step adds to the log *)
-Definition step_site (s : state) (r : req) : Prop :=
-  site r /\ (r_src r = SrcTimer -> f_stop (r_fl r) = f_stop (fl s)).
-
-Lemma lift_nt s0 s s' : emits nt_site s s' -> emits (step_site s0) s s'.
-Proof. apply emits_weaken. intros r [a b]. split; [exact a | intros; contradiction]. Qed.
-
-Lemma lift_same s0 s s' : log s' = log s -> emits (step_site s0) s s'.
-Proof. apply emits_same. Qed.
-
-Lemma update_timeout_fl n s : fl (update_timeout n s) = fl s /\ log (update_timeout n s) = log s.
-Proof. unfold update_timeout. destruct (n =? 0); auto. Qed.
-
-Lemma step_spec s o :
-  mask_excl (fl s) -> mask_excl (fl (step s o)) /\ emits (step_site s) s (step s o).
-Proof.
-  intros Hm. destruct o; simpl.
-  - (* OEnable *) unfold ctl_enable. destruct (f_active (fl s)) eqn:Ha; [split; [assumption | apply emits_same; reflexivity] |].
-    split.
-    + match goal with |- mask_excl (fl (update_timeout ?n ?x)) => rewrite (proj1 (update_timeout_fl n x)) end.
-      destruct reset; simpl; unfold mask_excl in *; dflags (fl s); dbools.
-    + apply emits_same. match goal with |- log (update_timeout ?n ?x) = _ => rewrite (proj2 (update_timeout_fl n x)) end.
-      destruct reset; reflexivity.
-  - (* ODisable *) unfold ctl_disable. destruct (negb (f_active (fl s))); (split; [| apply emits_same; reflexivity]); auto;
-      try (simpl; unfold mask_excl in *; dflags (fl s); dbools).
-  - (* OClose *) unfold ctl_close. split; [| apply emits_same; reflexivity]. simpl. unfold mask_excl in *. dflags (fl s). dbools.
-  - destruct (send_start_event_spec s). split; [assumption | apply lift_nt; assumption].
-  - destruct (send_stop_event_spec s). split; [assumption | apply lift_nt; assumption].
-  - destruct (send_completed_event_spec s). split; [assumption | apply lift_nt; assumption].
-  - destruct (send_update_event_spec s Hm). split; [assumption | apply lift_nt; assumption].
-  - unfold manual_request. destruct (tmo s); [destruct (send_update_event_spec s Hm); split; [assumption | apply lift_nt; assumption] | split; [assumption | apply emits_same; reflexivity]].
-  - (* OStartRequesting *) unfold start_requesting. destruct (f_requesting (fl s)); [split; [assumption | apply emits_same; reflexivity] |].
-    destruct (f_active (fl s)).
-    + split; [rewrite (proj1 (update_timeout_fl _ _)) | apply emits_same; rewrite (proj2 (update_timeout_fl _ _)); reflexivity].
-      simpl. unfold mask_excl in *. dflags (fl s). dbools.
-    + split; [| apply emits_same; reflexivity]. simpl. unfold mask_excl in *. dflags (fl s). dbools.
-  - (* OStopRequesting *) unfold stop_requesting. destruct (negb (f_requesting (fl s))); (split; [| apply emits_same; reflexivity]); auto;
-      try (simpl; unfold mask_excl in *; dflags (fl s); dbools).
-  - (* OTrackerEnable *) unfold tracker_enable. destruct (find_id (trs s) id); [| split; [assumption | apply emits_same; reflexivity]].
-    destruct (t_en t); [split; [assumption | apply emits_same; reflexivity] |].
-    match goal with |- context [if ?c then _ else if ?d then _ else _] => destruct c; [split; [assumption | apply emits_same; reflexivity] | destruct d] end.
-    + split; [rewrite (proj1 (update_timeout_fl _ _)); assumption | apply emits_same; rewrite (proj2 (update_timeout_fl _ _)); reflexivity].
-    + split; [assumption | apply emits_same; reflexivity].
-  - (* OTrackerDisable *) unfold tracker_disable. destruct (find_id (trs s) id); [| split; [assumption | apply emits_same; reflexivity]].
-    destruct (negb (t_en t)); [split; [assumption | apply emits_same; reflexivity] |].
-    match goal with |- context [if ?c then _ else _] => destruct c end.
-    + split; [rewrite (proj1 (update_timeout_fl _ _)); assumption | apply emits_same; rewrite (proj2 (update_timeout_fl _ _)); reflexivity].
-    + split; [assumption | apply emits_same; reflexivity].
-  - (* OCycle *) split; [assumption | apply emits_same; reflexivity].
-  - (* OSuccess *) unfold reply_success. destruct (find_id (trs s) id); [| split; [assumption | apply emits_same; reflexivity]].
-    destruct (negb (t_busy t)); [split; [assumption | apply emits_same; reflexivity] |].
-    unfold ctl_receive_success. simpl.
-    destruct (negb (f_active (fl s))); [split; [assumption | apply emits_same; reflexivity] |].
-    assert (Hc : mask_excl (mkF false false false false (f_active (fl s)) (f_requesting (fl s)) false false)) by (unfold mask_excl; simpl; auto).
-    destruct (f_requesting (fl s)).
-    + split; [rewrite (proj1 (update_timeout_fl _ _)); exact Hc | apply emits_same; rewrite (proj2 (update_timeout_fl _ _)); reflexivity].
-    + match goal with |- context [if ?c then _ else _] => destruct c end; [| split; [exact Hc | apply emits_same; reflexivity]].
-      match goal with |- context [match ?c with Some _ => _ | None => _ end] => destruct c end.
-      * split; [rewrite (proj1 (update_timeout_fl _ _)); exact Hc | apply emits_same; rewrite (proj2 (update_timeout_fl _ _)); reflexivity].
-      * split; [exact Hc | apply emits_same; reflexivity].
-  - (* OFailure *) unfold reply_failure. destruct (find_id (trs s) id); [| split; [assumption | apply emits_same; reflexivity]].
-    destruct (negb (t_busy t)); [split; [assumption | apply emits_same; reflexivity] |].
-    simpl. destruct (negb (f_active (fl s))); [split; [assumption | apply emits_same; reflexivity] |].
-    match goal with |- context [do_timeout ?x] =>
-      assert (Hx : mask_excl (fl x)) by (simpl; unfold mask_excl in *; dflags (fl s); dbools);
-      destruct (do_timeout_spec x Hx) as [hf he]; split; [rewrite hf; exact Hx |];
-      apply emits_trans with (s2 := x); [apply emits_same; reflexivity |];
-      eapply emits_weaken; [| exact he]; intros r [hs hf']; split; [exact hs | intros _; rewrite hf'; reflexivity] end.
-  - (* OAdvance *) unfold perform. simpl. destruct (tmo s); [| split; [assumption | apply emits_same; reflexivity]].
-    match goal with |- context [if ?c then _ else _] => destruct c end; [| split; [assumption | apply emits_same; reflexivity]].
-    match goal with |- context [do_timeout ?x] =>
-      assert (Hx : mask_excl (fl x)) by (simpl; exact Hm);
-      destruct (do_timeout_spec x Hx) as [hf he]; split; [rewrite hf; exact Hx |];
-      apply emits_trans with (s2 := x); [apply emits_same; reflexivity |];
-      eapply emits_weaken; [| exact he]; intros r [hs hf']; split; [exact hs | intros _; rewrite hf'; reflexivity] end.
-  - (* ONext *) destruct (tmo s) eqn:Ht; [| split; [assumption | apply emits_same; reflexivity]].
-    unfold perform. simpl. rewrite Ht.
-    match goal with |- context [if ?c then _ else _] => destruct c end; [| split; [assumption | apply emits_same; reflexivity]].
-    match goal with |- context [do_timeout ?x] =>
-      assert (Hx : mask_excl (fl x)) by (simpl; exact Hm);
-      destruct (do_timeout_spec x Hx) as [hf he]; split; [rewrite hf; exact Hx |];
-      apply emits_trans with (s2 := x); [apply emits_same; reflexivity |];
-      eapply emits_weaken; [| exact he]; intros r [hs hf']; split; [exact hs | intros _; rewrite hf'; reflexivity] end.
-  - (* OStats *) split; [assumption | apply emits_same; reflexivity].
-  - (* OStart *) destruct skip_tracker.
-    + unfold ctl_enable. destruct (f_active (fl s)); [split; [assumption | apply emits_same; reflexivity] |].
-      split; [rewrite (proj1 (update_timeout_fl _ _)) | apply emits_same; rewrite (proj2 (update_timeout_fl _ _)); reflexivity].
-      simpl. unfold mask_excl in *. dflags (fl s). dbools.
-    + destruct (send_start_event_spec (ctl_enable true s)) as [h1 h2]. split; [assumption |].
-      eapply emits_trans; [| apply lift_nt; exact h2]. apply emits_same.
-      unfold ctl_enable. destruct (f_active (fl s)); [reflexivity |]. rewrite (proj2 (update_timeout_fl _ _)). reflexivity.
-  - (* OStop *) destruct skip_tracker.
-    + unfold ctl_disable. destruct (negb (f_active (fl s))); (split; [| apply emits_same; reflexivity]); auto;
-      try (simpl; unfold mask_excl in *; dflags (fl s); dbools).
-    + destruct (send_stop_event_spec s) as [h1 h2].
-      apply (lift_nt s) in h2.
-      unfold ctl_disable. destruct (negb (f_active (fl (send_stop_event s)))); [split; assumption |].
-      split; [| eapply emits_trans; [exact h2 | apply emits_same; reflexivity]].
-      simpl. unfold mask_excl in *. dflags (fl (send_stop_event s)). dbools.
-Qed.
+Lemma step_site_site s o r : step_site s o r -> site r.
+Proof. intros [h _]. exact h. Qed.
 
 Lemma Inv_step s o : Inv s -> Inv (step s o).
 Proof.
-  intros [Hm Hl]. destruct (step_spec s o Hm) as [Hm' He]. split; [assumption | eapply inv_of_emits; eauto].
-  eapply emits_weaken; [| exact He]. intros r [a _]. exact a.
+  intros (Hm & Hs & Hi & Hl). destruct (step_spec s Hm o) as (a & _ & [c1 c2] & [new [e1 e2]]).
+  unfold Inv. ssplit; auto.
+  - rewrite c1; assumption.
+  - rewrite e1. apply Forall_app. split; [| assumption]. eapply Forall_impl; [| exact e2]. apply step_site_site.
 Qed.
 
 Lemma Inv_run ops : forall s, Inv s -> Inv (run s ops).
 Proof. induction ops as [| o ops IH]; intros s H; simpl; [assumption | apply IH, Inv_step, H]. Qed.
 
-Lemma Inv_init t0 groups : Inv (init t0 groups).
-Proof. split; [unfold mask_excl; simpl; auto | constructor]. Qed.
+(* every log entry of a run was added by some step from a state satisfying the invariants *)
+Section RunLog.
+Variable K : state -> Prop.
+Variable okop : op -> Prop.
+Hypothesis K_step : forall s o, Inv s -> K s -> okop o -> K (step s o).
 
-Lemma reachable_site t0 groups ops r :
-  In r (log (run (init t0 groups) ops)) -> site r.
+Definition origin (s0 : state) (r : req) : Prop :=
+  In r (log s0) \/ exists s1 o, Inv s1 /\ K s1 /\ okop o /\ step_site s1 o r.
+
+Lemma run_log ops : forall s, Forall okop ops -> Inv s -> K s ->
+  forall r, In r (log (run s ops)) -> origin s r.
 Proof.
-  intros Hin. pose proof (Inv_run ops _ (Inv_init t0 groups)) as [_ H].
-  rewrite Forall_forall in H. apply H. assumption.
+  induction ops as [| o ops IH]; intros s Hops HI HK r Hin; simpl in Hin.
+  - left. assumption.
+  - inversion Hops as [| ? ? Ho Hrest]; subst.
+    destruct (IH (step s o) Hrest (Inv_step s o HI) (K_step s o HI HK Ho) r Hin) as [H | H]; [| right; exact H].
+    destruct HI as (Hm & HI'). destruct (step_spec s Hm o) as (_ & _ & _ & [new [e1 e2]]).
+    rewrite e1 in H. apply in_app_or in H. destruct H as [H | H]; [| left; assumption].
+    right. exists s, o. rewrite Forall_forall in e2. ssplit; auto. split; assumption.
+Qed.
+End RunLog.
+
+Lemma reachable_origin t0 groups ops r :
+  In r (log (run (init t0 groups) ops)) ->
+  exists s1 o, Inv s1 /\ step_site s1 o r.
+Proof.
+  intros Hin.
+  destruct (run_log (fun _ => True) (fun _ => True) (fun _ _ _ _ _ => I) ops (init t0 groups)) with (r := r) as [H | H]; auto.
+  - rewrite Forall_forall. auto.
+  - apply Inv_init.
+  - simpl in H. contradiction.
+  - destruct H as (s1 & o & a & _ & _ & d). exists s1, o. auto.
 Qed.
 
-(* ------------------------------------------------------------------ the theorems *)
+Lemma reachable_site t0 groups ops r : In r (log (run (init t0 groups) ops)) -> site r.
+Proof. intros H. destruct (reachable_origin _ _ _ _ H) as (s1 & o & _ & h). eapply step_site_site; eauto. Qed.
+
+(* ------------------------------------------------------------------ find_next_to_request *)
+
+Lemma atn_failed x : t_fc x <> 0 -> activity_time_next x = failed_time_next x.
+Proof. intros H. unfold activity_time_next. apply Z.eqb_neq in H. rewrite H. reflexivity. Qed.
+
+Lemma fntr_scan_spec r : forall pref t, fntr_scan pref r = t ->
+  (t = pref \/ exists r1 r2, r = r1 ++ t :: r2 /\ can_request_state t = true) /\
+  activity_time_next t <= activity_time_next pref /\
+  (forall u, In u r -> can_request_state u = true -> t_fc u = 0 -> activity_time_next t <= activity_time_next u).
+Proof.
+  induction r as [| x r IH]; intros pref t H; simpl in H.
+  - subst. ssplit; [left; reflexivity | lia | intros u []].
+  - destruct (negb (can_request_state x)) eqn:Hc.
+    { apply negb_true_iff in Hc. destruct (IH pref t H) as (a & b & c). ssplit; [| exact b |].
+      - destruct a as [a | (r1 & r2 & e & q)]; [left; exact a | right; exists (x :: r1), r2; split; [simpl; rewrite <- e; reflexivity | assumption]].
+      - intros u [E | Hu] Hq Hf; [subst; congruence | auto]. }
+    apply negb_false_iff in Hc.
+    assert (Keep : fntr_scan pref r = t -> (t_fc x = 0 -> activity_time_next pref <= activity_time_next x) ->
+      (t = pref \/ exists r1 r2, x :: r = r1 ++ t :: r2 /\ can_request_state t = true) /\
+      activity_time_next t <= activity_time_next pref /\
+      (forall u, In u (x :: r) -> can_request_state u = true -> t_fc u = 0 -> activity_time_next t <= activity_time_next u)).
+    { intros H' Hx. destruct (IH pref t H') as (a & b & c). ssplit; [| exact b |].
+      - destruct a as [a | (r1 & r2 & e & q)]; [left; exact a | right; exists (x :: r1), r2; split; [simpl; rewrite <- e; reflexivity | assumption]].
+      - intros u [E | Hu] Hq Hf; [subst; specialize (Hx Hf); lia | auto]. }
+    assert (Take : fntr_scan x r = t -> activity_time_next x < activity_time_next pref ->
+      (t = pref \/ exists r1 r2, x :: r = r1 ++ t :: r2 /\ can_request_state t = true) /\
+      activity_time_next t <= activity_time_next pref /\
+      (forall u, In u (x :: r) -> can_request_state u = true -> t_fc u = 0 -> activity_time_next t <= activity_time_next u)).
+    { intros H' Hx. destruct (IH x t H') as (a & b & c). ssplit; [| lia |].
+      - right. destruct a as [a | (r1 & r2 & e & q)]; [exists [], r; rewrite a; split; [reflexivity | assumption] | exists (x :: r1), r2; split; [simpl; rewrite <- e; reflexivity | assumption]].
+      - intros u [E | Hu] Hq Hf; [subst; exact b | auto]. }
+    destruct (negb (t_fc x =? 0)) eqn:Hfx.
+    + apply negb_true_iff in Hfx. apply Z.eqb_neq in Hfx.
+      destruct (t_fc pref =? 0); [apply Keep; [exact H | intros; contradiction] |].
+      destruct (failed_time_next x <? activity_time_next pref) eqn:Hlt.
+      * apply Z.ltb_lt in Hlt. apply Take; [exact H | rewrite atn_failed; assumption].
+      * apply Keep; [exact H | intros; contradiction].
+    + apply negb_false_iff in Hfx. apply Z.eqb_eq in Hfx.
+      destruct (activity_time_next x <? activity_time_next pref) eqn:Hlt.
+      * apply Z.ltb_lt in Hlt. apply Take; assumption.
+      * apply Z.ltb_ge in Hlt. apply Keep; [exact H | intros; exact Hlt].
+Qed.
+
+Lemma not_requestable_busy u : can_request_state u = false -> t_en u = true -> t_busy u = true.
+Proof. unfold can_request_state. intros H He. rewrite He in H. simpl in H. apply negb_false_iff in H. exact H. Qed.
+
+Lemma fntr_spec l t : find_next_to_request l = Some t ->
+  exists l1 l2, l = l1 ++ t :: l2 /\ can_request_state t = true /\
+  forall u, In u l1 -> t_en u = true -> t_fc u = 0 ->
+    t_busy u = true \/
+    (activity_time_next t <= activity_time_next u /\
+     exists p, In p l1 /\ can_request_state p = true /\ t_fc p <> 0).
+Proof.
+  unfold find_next_to_request. intros H.
+  set (nq := fun t => negb (can_request_state t)) in *.
+  pose proof (take_drop nq l) as Hl. pose proof (take_while_all nq l) as Hd.
+  destruct (drop_while nq l) as [| p r] eqn:Hdr; [discriminate |].
+  pose proof (drop_while_head nq l p r Hdr) as Hp. unfold nq in Hp. apply negb_false_iff in Hp.
+  assert (Hbusy : forall u, In u (take_while nq l) -> t_en u = true -> t_busy u = true).
+  { intros u Hu He. rewrite Forall_forall in Hd. specialize (Hd u Hu). unfold nq in Hd. apply negb_true_iff in Hd.
+    apply not_requestable_busy; assumption. }
+  destruct (t_fc p =? 0) eqn:Hfp.
+  - inversion H; subst t. exists (take_while nq l), r. ssplit; auto; intros u Hu He _; left; auto.
+  - apply Z.eqb_neq in Hfp. inversion H as [H']. destruct (fntr_scan_spec r p t H') as (a & b & c).
+    destruct a as [a | (r1 & r2 & e & q)].
+    + exists (take_while nq l), r. ssplit; [rewrite ?H', a; symmetry; exact Hl | rewrite ?H', a; exact Hp | intros u Hu He _; left; auto].
+    + exists (take_while nq l ++ p :: r1), r2. ssplit.
+      * rewrite ?H'. rewrite <- app_assoc. simpl. rewrite <- e. symmetry. exact Hl.
+      * rewrite ?H'. exact q.
+      * intros u Hu He Hf. apply in_app_or in Hu. destruct Hu as [Hu | [E | Hu]].
+        -- left. auto.
+        -- subst u. contradiction.
+        -- destruct (can_request_state u) eqn:Hq; [| left; apply not_requestable_busy; assumption].
+           right. split.
+           ++ rewrite ?H'. apply c; auto. rewrite e. apply in_or_app. left. assumption.
+           ++ exists p. ssplit; auto. apply in_or_app. right. left. reflexivity.
+Qed.
+
+Lemma fntr_tier l t : nsorted (map t_group l) -> find_next_to_request l = Some t ->
+  forall u, In u l -> (t_group u < t_group t)%nat -> t_en u = true -> t_fc u = 0 ->
+    t_busy u = true \/
+    (activity_time_next t <= activity_time_next u /\
+     exists p, In p l /\ can_request_state p = true /\ t_fc p <> 0).
+Proof.
+  intros Hs Hf u Hu Hg He Hfc. destruct (fntr_spec l t Hf) as (l1 & l2 & e & q & h).
+  subst l. rewrite map_app in Hs. simpl in Hs. destruct (nsorted_app_inv _ _ _ Hs) as [_ H2].
+  apply in_app_or in Hu. destruct Hu as [Hu | [E | Hu]].
+  - destruct (h u Hu He Hfc) as [a | (a & p & b1 & b2 & b3)]; [left; exact a |].
+    right. split; [exact a |]. exists p. ssplit; auto. apply in_or_app. left. assumption.
+  - subst u. lia.
+  - rewrite Forall_forall in H2. specialize (H2 (t_group u) (in_map t_group _ _ Hu)). lia.
+Qed.
+
+(* ------------------------------------------------------------------ theorems about every logged request *)
+
+Lemma mask_excl_start f : mask_excl f -> f_start f = true -> current_send_event f = EvStarted.
+Proof. unfold mask_excl, current_send_event. destruct f as [u c st sp a rq fa pr]; simpl. intros. dbools. Qed.
+
+Lemma mask_excl_completed f : mask_excl f -> f_completed f = true -> current_send_event f = EvCompleted.
+Proof. unfold mask_excl, current_send_event. destruct f as [u c st sp a rq fa pr]; simpl. intros. dbools. Qed.
+
+Lemma mask_excl_stopped f : mask_excl f -> current_send_event f = EvStopped -> f_stop f = true.
+Proof. unfold mask_excl, current_send_event. destruct f as [u c st sp a rq fa pr]; simpl. intros. dbools. Qed.
 
 Section Theorems.
 Variables (t0 : Z) (groups : list nat) (ops : list op) (r : req).
 Hypothesis Hin : In r (log (run (init t0 groups) ops)).
 
-(* at most one announce per tracker: a request to a busy tracker is a *different*, non-plain
-   event replacing the pending one; requests only go to enabled trackers *)
 Lemma one_in_flight :
   t_en (r_pre r) = true /\ r_repl r = t_busy (r_pre r) /\
   (t_busy (r_pre r) = true -> r_ev r <> EvNone /\ r_ev r <> t_ev (r_pre r)).
 Proof. destruct (reachable_site _ _ _ _ Hin) as [(a & b & c & d) _]. auto. Qed.
 
-Lemma mask_excl_start f : mask_excl f -> f_start f = true -> current_send_event f = EvStarted.
-Proof. unfold mask_excl, current_send_event. dflags f. dbools. Qed.
-
-Lemma mask_excl_completed f : mask_excl f -> f_completed f = true -> current_send_event f = EvCompleted.
-Proof. unfold mask_excl, current_send_event. dflags f. dbools. Qed.
-
-(* while the controller's 'start pending' flag is set, every announce except the one made by
-   send_update_event (manual request) carries STARTED *)
-Lemma started_carried :
-  f_start (r_fl r) = true -> r_src r <> SrcUpdate -> r_ev r = EvStarted.
+(* full strength: no exception for manual requests any more *)
+Lemma started_carried : f_start (r_fl r) = true -> r_ev r = EvStarted.
 Proof.
-  intros Hf Hs. destruct (reachable_site _ _ _ _ Hin) as [_ H].
-  destruct (r_src r); try tauto; try (destruct H as (? & ? & ? & ?); congruence).
-  destruct H as (he & hm & _). rewrite he. apply mask_excl_start; assumption.
+  intros Hf. destruct (reachable_site _ _ _ _ Hin) as [_ H].
+  destruct (r_src r).
+  - apply H.
+  - destruct H as (_ & _ & h & _). congruence.
+  - destruct H as (_ & _ & h & _). congruence.
+  - destruct H as (he & hm & _). rewrite he. apply mask_excl_start; assumption.
+  - destruct H as (he & hm & _). rewrite he. apply mask_excl_start; assumption.
 Qed.
 
-Lemma completed_carried :
-  f_completed (r_fl r) = true -> r_src r <> SrcUpdate -> r_ev r = EvCompleted.
+Lemma completed_carried : f_completed (r_fl r) = true -> r_ev r = EvCompleted.
 Proof.
-  intros Hf Hs. destruct (reachable_site _ _ _ _ Hin) as [_ H].
-  destruct (r_src r); try tauto; try (destruct H as (? & ? & ? & ?); congruence).
-  - destruct H as (? & ? & ?). congruence.
+  intros Hf. destruct (reachable_site _ _ _ _ Hin) as [_ H].
+  destruct (r_src r).
+  - destruct H as (_ & _ & h). congruence.
+  - destruct H as (_ & _ & _ & h). congruence.
+  - apply H.
+  - destruct H as (he & hm & _). rewrite he. apply mask_excl_completed; assumption.
   - destruct H as (he & hm & _). rewrite he. apply mask_excl_completed; assumption.
 Qed.
 
-(* STOPPED is only ever produced by send_stop_event (to trackers that were successfully used) or
-   by the timer while the controller is active with the stop flag still set. *)
-Lemma stopped_sites :
-  r_ev r = EvStopped ->
-  (r_src r = SrcStop /\ is_in_use (r_pre r) = true) \/
-  (r_src r = SrcTimer /\ f_stop (r_fl r) = true /\ f_active (r_fl r) = true).
-Proof.
-  intros He. destruct (reachable_site _ _ _ _ Hin) as [_ H].
-  destruct (r_src r).
-  - destruct H as (h & _). congruence.
-  - left. split; [reflexivity | apply H].
-  - destruct H as (h & _). congruence.
-  - congruence.
-  - right. destruct H as (he & hm & ha & _). split; [reflexivity |]. split; [| assumption].
-    rewrite He in he. unfold mask_excl, current_send_event in *. dflags (r_fl r). dbools.
-Qed.
-
-(* no hammering of a failed tracker: a timer-driven announce to a tracker with k > 0 consecutive
-   failures is at least retry_wait = (min_interval if the tracker raised it above min_min, else
-   min(base * 2^min(k-1,cap), min_min)) seconds after the last failure *)
 Lemma backoff_respected :
   r_src r = SrcTimer -> t_fc (r_pre r) <> 0 ->
   t_ftl (r_pre r) + retry_wait (r_pre r) <= r_time r / usec.
 Proof.
   intros Hs Hf. destruct (reachable_site _ _ _ _ Hin) as [_ H]. rewrite Hs in H.
-  destruct H as (_ & _ & _ & [h _]). auto.
+  destruct H as (_ & _ & _ & [h _] & _). auto.
 Qed.
 
-(* after a success a timer-driven announce waits at least min(normal interval, max(min interval,
-   floor)); when the tracker's min interval does not exceed its interval this is the min interval *)
-Lemma success_interval_respected :
+(* unconditional: every timer-driven announce to a tracker whose last reply was a success comes
+   no sooner than that tracker's (clamped) min interval after the success *)
+Lemma min_interval_respected :
   r_src r = SrcTimer -> t_fc (r_pre r) = 0 -> t_sc (r_pre r) <> 0 ->
-  t_stl (r_pre r) + Z.min (t_ni (r_pre r)) (Z.max (t_mi (r_pre r)) promisc_floor) <= r_time r / usec.
-Proof.
-  intros Hs Hf Hc. destruct (reachable_site _ _ _ _ Hin) as [_ H]. rewrite Hs in H.
-  destruct H as (_ & _ & _ & [_ h]). auto.
-Qed.
-
-Lemma min_interval_respected_when_sane :
-  r_src r = SrcTimer -> t_fc (r_pre r) = 0 -> t_sc (r_pre r) <> 0 ->
-  t_mi (r_pre r) <= t_ni (r_pre r) ->
   t_stl (r_pre r) + t_mi (r_pre r) <= r_time r / usec.
 Proof.
-  intros Hs Hf Hc Hle. pose proof (success_interval_respected Hs Hf Hc). lia.
+  intros Hs Hf Hc. destruct (reachable_site _ _ _ _ Hin) as [_ H]. rewrite Hs in H.
+  destruct H as (_ & _ & _ & [_ h] & _). auto.
+Qed.
+
+(* normal mode waits for the full interval *)
+Lemma normal_interval_respected :
+  r_src r = SrcTimer -> f_promisc (r_fl r) = false -> f_requesting (r_fl r) = false ->
+  t_fc (r_pre r) = 0 -> t_sc (r_pre r) <> 0 ->
+  t_stl (r_pre r) + t_ni (r_pre r) <= r_time r / usec.
+Proof.
+  intros Hs Hp Hr Hf Hc. destruct (reachable_site _ _ _ _ Hin) as [_ H]. rewrite Hs in H.
+  destruct H as (_ & _ & _ & _ & h). destruct (h (conj Hp Hr)) as [_ h2].
+  unfold activity_time_next, success_time_next in h2. rewrite Hf in h2. simpl in h2.
+  apply Z.eqb_neq in Hc. rewrite Hc in h2. lia.
+Qed.
+
+(* tier order: what holds. In normal mode a tracker of a later group is contacted only if every
+   enabled, never-failed tracker u of an earlier group is either still in flight (listed finding
+   tier-skipped-while-in-flight) or passed over by find_next_to_request because the first
+   requestable tracker has failed and the chosen tracker's next-activity time is not later than
+   u's (listed finding tier-skipped-not-due). *)
+Lemma tier_order :
+  r_src r = SrcTimer ->
+  f_promisc (r_fl r) = true \/ f_requesting (r_fl r) = true \/
+  (forall u, In u (r_trs r) -> (t_group u < t_group (r_pre r))%nat -> t_en u = true -> t_fc u = 0 ->
+     t_busy u = true \/
+     (activity_time_next (r_pre r) <= activity_time_next u /\
+      exists p, In p (r_trs r) /\ can_request_state p = true /\ t_fc p <> 0)).
+Proof.
+  intros Hs. destruct (f_promisc (r_fl r)) eqn:Hp; [left; reflexivity |].
+  destruct (f_requesting (r_fl r)) eqn:Hr; [right; left; reflexivity |].
+  right. right.
+  destruct (reachable_origin _ _ _ _ Hin) as (s1 & o & (_ & Hsort & _) & (Hsite & _ & Hst)).
+  destruct Hsite as [_ Hsite]. rewrite Hs in Hsite, Hst.
+  destruct Hsite as (_ & _ & _ & _ & hn). destruct Hst as (_ & _ & _ & _ & hg).
+  assert (Hn : normal_mode (r_fl r)) by (split; assumption).
+  destruct (hn Hn) as [hf _]. specialize (hg Hn).
+  apply fntr_tier; [rewrite hg; exact Hsort | exact hf].
 Qed.
 
 End Theorems.
 
-(* the back-off table of the property statement: 5, 10, 20, 40, 80, 160, 300, 300, ... *)
-Lemma backoff_table :
-  map backoff [1; 2; 3; 4; 5; 6; 7; 8; 9; 100] = [5; 10; 20; 40; 80; 160; 300; 300; 300; 300].
-Proof. vm_compute. reflexivity. Qed.
+(* ------------------------------------------------------------------ stopped: client-level op lists *)
 
-(* the clamping setters *)
-Lemma interval_clamps v :
-  min_normal <= set_normal_interval v <= max_normal /\ min_min <= set_min_interval v <= max_min.
+Definition client_level (o : op) : Prop := o <> OSendStop.
+
+Lemma stop_inv_step s o : Inv s -> stop_inv (fl s) -> client_level o -> stop_inv (fl (step s o)).
+Proof. intros (Hm & _) Hs Ho. destruct (step_spec s Hm o) as (_ & h & _). apply h; assumption. Qed.
+
+Lemma stopped_only_on_stop_and_in_use t0 groups ops r :
+  Forall client_level ops -> In r (log (run (init t0 groups) ops)) ->
+  r_ev r = EvStopped -> r_src r = SrcStop /\ is_in_use (r_pre r) = true.
 Proof.
-  pose proof params_facts as (p1&p2&p3&p4&p5). unfold set_normal_interval, set_min_interval. lia.
+  intros Hops Hin Hev.
+  destruct (run_log (fun s => stop_inv (fl s)) client_level stop_inv_step ops (init t0 groups) Hops (Inv_init _ _)) with (r := r) as [H | H]; auto.
+  - unfold stop_inv. simpl. discriminate.
+  - simpl in H. contradiction.
+  - destruct H as (s1 & o & _ & Hk & _ & ([_ Hsite] & _ & Hst)).
+    destruct (r_src r).
+    + destruct Hsite as (h & _). congruence.
+    + split; [reflexivity | apply Hsite].
+    + destruct Hsite as (h & _). congruence.
+    + destruct Hsite as (he & hm & _). destruct Hst as ((_ & _ & h3) & ha).
+      rewrite Hev in he. symmetry in he. apply (mask_excl_stopped _ hm) in he.
+      rewrite h3 in he. specialize (Hk he). congruence.
+    + destruct Hsite as (he & hm & _). destruct Hst as ((_ & _ & h3) & ha & _).
+      rewrite Hev in he. symmetry in he. apply (mask_excl_stopped _ hm) in he.
+      rewrite h3 in he. specialize (Hk he). congruence.
 Qed.
 
-(* which step may clear the pending 'start' flag *)
-Lemma start_flag_persists s o :
-  f_start (fl s) = true -> f_start (fl (step s o)) = true \/
+(* ------------------------------------------------------------------ clamps, figures *)
+
+Lemma interval_clamps t0 groups ops t :
+  In t (trs (run (init t0 groups) ops)) ->
+  min_normal <= t_ni t <= max_normal /\ min_min <= t_mi t <= max_min.
+Proof.
+  intros Hin. destruct (Inv_run ops _ (Inv_init t0 groups)) as (_ & _ & Hi & _).
+  unfold tinv in Hi. rewrite Forall_forall in Hi. apply (Hi t Hin).
+Qed.
+
+Lemma params_match t0 groups ops o :
+  let s := run (init t0 groups) ops in
+  exists new, log (step s o) = new ++ log s /\
+    Forall (fun r => r_up r = Z.max (s_up s) 0 /\ r_comp r = Z.max (s_comp s) 0 /\ r_left r = s_left s) new.
+Proof.
+  simpl. destruct (Inv_run ops _ (Inv_init t0 groups)) as (Hm & _).
+  destruct (step_spec _ Hm o) as (_ & _ & _ & [new [e1 e2]]). exists new. split; [exact e1 |].
+  eapply Forall_impl; [| exact e2]. intros r (_ & h & _). exact h.
+Qed.
+
+(* ------------------------------------------------------------------ started / completed: trace form *)
+
+(* ops that end the obligation to carry 'started': the client replaces the event, or a tracker
+   accepts a request that carried STARTED while the controller is active *)
+Definition clears (ev : event) (s : state) (o : op) : Prop :=
   match o with
-  | OSendStop | OSendCompleted | OStop false => True
-  | OSuccess id _ _ => f_active (fl s) = true /\ exists t, find_id (trs s) id = Some t /\ t_busy t = true
+  | OSendStop | OStop false => True
+  | OSendStart | OStart false => ev <> EvStarted
+  | OSendCompleted => ev <> EvCompleted
+  | OSuccess id _ _ => f_active (fl s) = true /\ exists t, find_id (trs s) id = Some t /\ t_busy t = true /\ t_ev t = ev
   | _ => False
   end.
+
+Fixpoint pending_run (ev : event) (s : state) (ops : list op) : Prop :=
+  match ops with
+  | [] => True
+  | o :: rest => ~ clears ev s o /\ pending_run ev (step s o) rest
+  end.
+
+Definition pend_flag (ev : event) (f : flags) : bool :=
+  match ev with EvStarted => f_start f | EvCompleted => f_completed f | _ => false end.
+
+Lemma ctl_receive_success_flag ev latest ni x : mask_excl (fl x) -> pend_flag ev (fl x) = true -> (ev = EvStarted \/ ev = EvCompleted) ->
+  latest <> ev \/ f_active (fl x) = false ->
+  pend_flag ev (fl (ctl_receive_success latest ni x)) = true.
 Proof.
-  intros Hf. destruct o; simpl.
-  - left. unfold ctl_enable. destruct (f_active (fl s)); [assumption |]. rewrite (proj1 (update_timeout_fl _ _)). destruct reset; exact Hf.
-  - left. unfold ctl_disable. destruct (negb (f_active (fl s))); [assumption | exact Hf].
-  - left. exact Hf.
-  - left. destruct (send_start_event_spec s) as [_ _]. unfold send_start_event.
-    match goal with |- context [set_fl s ?f] => set (s1 := set_fl s f) end.
-    destruct (negb (f_active (fl s1)) || negb (has_usable (trs s1))); [reflexivity |].
-    destruct (filter is_usable (trs (ctl_close s1))) as [| a rest]; [reflexivity |].
-    pose proof (send_event_E SrcStart a EvStarted (ctl_close s1) (fun _ => True) I) as [_ (hfl & _)].
-    destruct rest; [rewrite hfl; reflexivity |].
-    rewrite (proj1 (update_timeout_fl _ _)). simpl. rewrite hfl. reflexivity.
-  - right; exact I.
-  - right; exact I.
-  - left. unfold send_update_event.
-    destruct (negb (f_active (fl s)) || negb (has_usable (trs s))); [assumption |].
-    destruct (mask_send (fl s) && has_active (trs s)); [assumption |].
-    match goal with |- context [filter is_usable (trs ?x)] => set (s1 := x) end.
-    assert (H1 : f_start (fl s1) = true) by (subst s1; destruct (negb (mask_send (fl s))); simpl; assumption).
-    destruct (filter is_usable (trs s1)) as [| a rest]; [assumption |].
-    pose proof (send_event_E SrcUpdate a EvNone s1 (fun _ => True) I) as [_ (hfl & _)]. rewrite hfl. assumption.
-  - left. unfold manual_request. destruct (tmo s); [| assumption]. unfold send_update_event.
-    destruct (negb (f_active (fl s)) || negb (has_usable (trs s))); [assumption |].
-    destruct (mask_send (fl s) && has_active (trs s)); [assumption |].
-    match goal with |- context [filter is_usable (trs ?x)] => set (s1 := x) end.
-    assert (H1 : f_start (fl s1) = true) by (subst s1; destruct (negb (mask_send (fl s))); simpl; assumption).
-    destruct (filter is_usable (trs s1)) as [| a rest]; [assumption |].
-    pose proof (send_event_E SrcUpdate a EvNone s1 (fun _ => True) I) as [_ (hfl & _)]. rewrite hfl. assumption.
-  - left. unfold start_requesting. destruct (f_requesting (fl s)); [assumption |].
-    destruct (f_active (fl s)); [rewrite (proj1 (update_timeout_fl _ _)) |]; exact Hf.
-  - left. unfold stop_requesting. destruct (negb (f_requesting (fl s))); [assumption | exact Hf].
-  - left. unfold tracker_enable. destruct (find_id (trs s) id); [| assumption]. destruct (t_en t); [assumption |].
-    match goal with |- context [if ?c then _ else if ?d then _ else _] => destruct c; [exact Hf | destruct d] end;
-      [rewrite (proj1 (update_timeout_fl _ _)) |]; exact Hf.
-  - left. unfold tracker_disable. destruct (find_id (trs s) id); [| assumption]. destruct (negb (t_en t)); [assumption |].
-    match goal with |- context [if ?c then _ else _] => destruct c end; [rewrite (proj1 (update_timeout_fl _ _)) |]; exact Hf.
-  - left; exact Hf.
-  - unfold reply_success. destruct (find_id (trs s) id) as [t |] eqn:Hfi; [| left; assumption].
-    destruct (negb (t_busy t)) eqn:Hb; [left; assumption |].
-    unfold ctl_receive_success. simpl. destruct (negb (f_active (fl s))) eqn:Ha; [left; exact Hf |].
-    right. apply negb_false_iff in Ha, Hb. split; [assumption |]. exists t. split; [reflexivity | assumption].
-  - left. unfold reply_failure. destruct (find_id (trs s) id); [| assumption]. destruct (negb (t_busy t)); [assumption |].
-    simpl. destruct (negb (f_active (fl s))); [exact Hf |].
-    match goal with |- context [do_timeout ?x] => pose proof (do_timeout_E x) as [_ (hfl & _)]; rewrite hfl end. exact Hf.
-  - left. unfold perform. simpl. destruct (tmo s); [| exact Hf].
-    match goal with |- context [if ?c then _ else _] => destruct c end; [| exact Hf].
-    match goal with |- context [do_timeout ?x] => pose proof (do_timeout_E x) as [_ (hfl & _)]; rewrite hfl end. exact Hf.
-  - left. destruct (tmo s) eqn:Ht; [| exact Hf]. unfold perform. simpl. rewrite Ht.
-    match goal with |- context [if ?c then _ else _] => destruct c end; [| exact Hf].
-    match goal with |- context [do_timeout ?x] => pose proof (do_timeout_E x) as [_ (hfl & _)]; rewrite hfl end. exact Hf.
-  - left; exact Hf.
-  - left. destruct skip_tracker.
-    + unfold ctl_enable. destruct (f_active (fl s)); [assumption |]. rewrite (proj1 (update_timeout_fl _ _)). exact Hf.
-    + unfold send_start_event.
-      match goal with |- context [set_fl ?x ?f] => set (s1 := set_fl x f) end.
-      destruct (negb (f_active (fl s1)) || negb (has_usable (trs s1))); [reflexivity |].
-      destruct (filter is_usable (trs (ctl_close s1))) as [| a rest]; [reflexivity |].
-      pose proof (send_event_E SrcStart a EvStarted (ctl_close s1) (fun _ => True) I) as [_ (hfl & _)].
-      destruct rest; [rewrite hfl; reflexivity |].
-      rewrite (proj1 (update_timeout_fl _ _)). simpl. rewrite hfl. reflexivity.
-  - destruct skip_tracker; [| right; exact I]. left.
-    unfold ctl_disable. destruct (negb (f_active (fl s))); [assumption | exact Hf].
+  intros Hm Hp Hev Hno. unfold ctl_receive_success. destruct (negb (f_active (fl x))) eqn:Ha; [exact Hp |].
+  apply negb_false_iff in Ha. destruct Hno as [Hno | Hno]; [| congruence].
+  assert (Hcur : current_send_event (fl x) = ev).
+  { destruct Hev; subst ev; simpl in Hp; [apply mask_excl_start | apply mask_excl_completed]; assumption. }
+  assert (Hne : event_eqb latest (current_send_event (fl x)) = false).
+  { rewrite Hcur. destruct (event_eqb latest ev) eqn:E; [| reflexivity]. apply event_eqb_true in E. contradiction. }
+  rewrite Hne.
+  match goal with |- context [if ?c then _ else _] => destruct c end.
+  - rewrite (proj1 (update_timeout_same _ _)). destruct Hev; subst ev; exact Hp.
+  - match goal with |- context [if ?c then _ else _] => destruct c end;
+      [rewrite (proj1 (update_timeout_same _ _)) |]; destruct Hev; subst ev; exact Hp.
 Qed.
 
-(* ------------------------------------------------------------------ refutations (faithful model) *)
-
-Definition ops_manual := [OEnable true; OSendStart; OFailure 0%nat None; OManual].
-
-(* the strict reading of "every announce carries 'started' until accepted" fails: a manual request
-   (send_update_event) while the start is pending and no request is in flight sends a plain update *)
-Lemma started_carried_refuted :
-  exists t0 groups ops r, In r (log (run (init t0 groups) ops)) /\
-    f_start (r_fl r) = true /\ r_ev r = EvNone.
+Lemma pend_flag_step ev s o : (ev = EvStarted \/ ev = EvCompleted) -> mask_excl (fl s) ->
+  pend_flag ev (fl s) = true -> ~ clears ev s o -> pend_flag ev (fl (step s o)) = true.
 Proof.
-  exists 31536000000000, [0%nat], ops_manual. eexists. split; [vm_compute; left; reflexivity |].
-  vm_compute. split; reflexivity.
+  intros Hev Hm Hp Hc.
+  assert (Hsame : forall s', same3 (fl s') (fl s) -> pend_flag ev (fl s') = true).
+  { intros s' (a & b & _). destruct Hev; subst ev; simpl in *; congruence. }
+  destruct o; simpl in Hc |- *.
+  - destruct (ctl_enable_facts s Hm reset) as (_&_&_&_&_&_&_&_&(a&b)). simpl in a, b.
+    destruct Hev; subst ev; simpl in *; congruence.
+  - unfold ctl_disable. destruct (negb (f_active (fl s))); [exact Hp |]. simpl. destruct Hev; subst ev; exact Hp.
+  - unfold ctl_close. simpl. destruct Hev; subst ev; exact Hp.
+  - destruct (send_start_event_spec s) as (_ & b & _). destruct Hev; subst ev; simpl; [exact b | exfalso; apply Hc; discriminate].
+  - exfalso. apply Hc. exact I.
+  - destruct Hev; subst ev; [exfalso; apply Hc; discriminate |].
+    exfalso. apply Hc. intros E. apply E. reflexivity.
+  - destruct (send_update_event_spec s Hm) as (_ & h & _). apply Hsame. exact h.
+  - unfold manual_request. destruct (tmo s); [| exact Hp].
+    destruct (send_update_event_spec s Hm) as (_ & h & _). apply Hsame. exact h.
+  - unfold start_requesting. destruct (f_requesting (fl s)); [exact Hp |].
+    destruct (f_active (fl s)); [rewrite (proj1 (update_timeout_same _ _)) |]; simpl; destruct Hev; subst ev; exact Hp.
+  - unfold stop_requesting. destruct (negb (f_requesting (fl s))); [exact Hp |]. simpl. destruct Hev; subst ev; exact Hp.
+  - destruct (tracker_enable_facts s id) as (_ & h & _). simpl in h. rewrite h. exact Hp.
+  - destruct (tracker_disable_facts s id) as (_ & h & _). simpl in h. rewrite h. exact Hp.
+  - exact Hp.
+  - unfold reply_success. destruct (find_id (trs s) id) as [t |] eqn:Hf; [| exact Hp].
+    destruct (negb (t_busy t)) eqn:Hb; [exact Hp |]. apply negb_false_iff in Hb.
+    apply ctl_receive_success_flag; auto.
+    destruct (f_active (fl s)) eqn:Ha; [left | right; reflexivity].
+    intros E. apply Hc. split; [reflexivity |]. exists t. ssplit; auto.
+  - unfold reply_failure. destruct (find_id (trs s) id); [| exact Hp]. destruct (negb (t_busy t)); [exact Hp |].
+    simpl. destruct (negb (f_active (fl s))); [exact Hp |].
+    match goal with |- context [do_timeout ?x] => pose proof (do_timeout_E x) as [_ (hfl & _)]; rewrite hfl end.
+    simpl. destruct Hev; subst ev; exact Hp.
+  - unfold perform. simpl. destruct (tmo s); [| exact Hp].
+    match goal with |- context [if ?c then _ else _] => destruct c end; [| exact Hp].
+    match goal with |- context [do_timeout ?x] => pose proof (do_timeout_E x) as [_ (hfl & _)]; rewrite hfl end. exact Hp.
+  - destruct (tmo s) eqn:Ht; [| exact Hp]. unfold perform. simpl. rewrite Ht.
+    match goal with |- context [if ?c then _ else _] => destruct c end; [| exact Hp].
+    match goal with |- context [do_timeout ?x] => pose proof (do_timeout_E x) as [_ (hfl & _)]; rewrite hfl end. exact Hp.
+  - exact Hp.
+  - destruct skip_tracker.
+    + destruct (ctl_enable_facts s Hm false) as (_&_&_&_&_&_&_&_&(a&b)). simpl in a, b.
+      destruct Hev; subst ev; simpl in *; congruence.
+    + destruct (send_start_event_spec (ctl_enable true s)) as (_ & b & _).
+      destruct Hev; subst ev; simpl; [exact b | exfalso; apply Hc; discriminate].
+  - destruct skip_tracker; [| exfalso; apply Hc; exact I].
+    unfold ctl_disable. destruct (negb (f_active (fl s))); [exact Hp |]. simpl. destruct Hev; subst ev; exact Hp.
 Qed.
-
-Lemma completed_carried_refuted :
-  exists t0 groups ops r, In r (log (run (init t0 groups) ops)) /\
-    f_completed (r_fl r) = true /\ r_ev r = EvNone.
-Proof.
-  exists 31536000000000, [0%nat],
-    [OEnable true; OSendStart; OSuccess 0%nat 1800 600; OSendCompleted; OFailure 0%nat None; OManual].
-  eexists. split; [vm_compute; left; reflexivity |]. vm_compute. split; reflexivity.
-Qed.
-
-(* a tracker whose min interval exceeds its interval is re-announced before the min interval *)
-Lemma min_interval_respected_refuted :
-  exists t0 groups ops r, In r (log (run (init t0 groups) ops)) /\
-    r_src r = SrcTimer /\ t_fc (r_pre r) = 0 /\ t_sc (r_pre r) <> 0 /\
-    t_mi (r_pre r) <= max_min /\
-    r_time r / usec < t_stl (r_pre r) + t_mi (r_pre r).
-Proof.
-  exists 31536000000000, [0%nat], [OEnable true; OSendStart; OSuccess 0%nat 600 3000; ONext].
-  eexists. split; [vm_compute; left; reflexivity |]. vm_compute. repeat split; congruence.
-Qed.
-
-(* normal mode (not promiscuous, not requesting): tier 2 is contacted although tier 1 holds an
-   enabled, idle tracker that has never failed *)
-Lemma tier_order_refuted :
-  exists t0 groups ops r u, In r (log (run (init t0 groups) ops)) /\
-    r_src r = SrcTimer /\ f_promisc (r_fl r) = false /\ f_requesting (r_fl r) = false /\
-    In u (r_trs r) /\ Nat.ltb (t_group u) (t_group (r_pre r)) = true /\
-    t_en u = true /\ t_busy u = false /\ t_fc u = 0.
-Proof.
-  exists 31536000000000, [0%nat; 1%nat; 2%nat],
-    [OEnable true; OSendStart; OFailure 0%nat None; OSuccess 1%nat 1800 600; OFailure 2%nat None; ONext; OFailure 0%nat None].
-  eexists. eexists. split; [vm_compute; left; reflexivity |].
-  vm_compute. split; [reflexivity |]. split; [reflexivity |]. split; [reflexivity |].
-  split; [right; left; reflexivity |]. repeat split; reflexivity.
-Qed.
-
-(* non-vacuity: the witnesses above are reachable logs; a plain history with all sites *)
-Example sites_inhabited :
-  exists r, In r (log (run (init 31536000000000 [0%nat; 0%nat; 1%nat])
-      [OStart false; OFailure 0%nat None; OAdvance 3000000; OSuccess 1%nat 1800 600; ONext; OSendCompleted; OStop false])) /\
-    r_ev r = EvStopped /\ r_src r = SrcStop.
-Proof. eexists. split; [vm_compute; left; reflexivity |]. vm_compute. split; reflexivity. Qed.
-
-Example timer_site_inhabited :
-  exists r, In r (log (run (init 31536000000000 [0%nat]) [OStart false; OFailure 0%nat None; ONext])) /\
-    r_src r = SrcTimer /\ t_fc (r_pre r) <> 0 /\ f_start (r_fl r) = true /\ r_ev r = EvStarted.
-Proof. eexists. split; [vm_compute; left; reflexivity |]. vm_compute. repeat split; congruence. Qed.
